@@ -8,6 +8,7 @@ import (
 	"encoding/json"
 	"errors"
 	"fmt"
+	"math/rand"
 	"net"
 	"os"
 	"reflect"
@@ -194,6 +195,8 @@ type rrRun struct {
 	aborted               []bool
 	wkOwner               []string // per conn: who runs releaseConn: "wk" | "dial"
 	wg                    sync.WaitGroup
+	foreignCtx            bool      // the callers' contexts are rrCtx values
+	cancelAtDial          []func()  // per dial: called by the dialer right before it returns the connection
 	held                  []heldMsg // replies the callers still own
 }
 
@@ -203,6 +206,8 @@ type heldMsg struct {
 }
 
 var rrCur *rrRun
+var dbgPends int
+var tailRng = rand.New(rand.NewSource(vtrace.Seed()))
 var rrMu sync.Mutex
 
 func rrCurrent() *rrRun { rrMu.Lock(); defer rrMu.Unlock(); return rrCur }
@@ -220,6 +225,7 @@ func newRRRun(nex, ncon int) *rrRun {
 	r.econn, r.retry, r.dialOf = make([]int, nex), make([]int, nex), make([]int, nex)
 	r.fresh, r.ctxdone, r.aborted = make([]bool, nex), make([]bool, nex), make([]bool, ncon)
 	r.wkOwner = make([]string, ncon)
+	r.cancelAtDial = make([]func(), ncon)
 	r.cancels = make([]context.CancelCauseFunc, nex)
 	r.t = transport.NewReuseConnTransport(transport.ReuseConnOpts{DialTimeout: time.Hour, IdleTimeout: time.Hour, DialContext: r.dial})
 	return r
@@ -249,7 +255,11 @@ func (r *rrRun) dial(ctx context.Context) (net.Conn, error) {
 	c := &rrConn{id: k, r: r, sock: "open", wcmd: make(chan ioCmd, 1), rcmd: make(chan ioCmd, 1)}
 	r.mu.Lock()
 	r.conns[k-1] = c
+	atDial := r.cancelAtDial[k-1]
 	r.mu.Unlock()
+	if atDial != nil {
+		atDial()
+	}
 	return c, nil
 }
 
@@ -405,8 +415,36 @@ func (r *rrRun) event(name string, args []any) {
 	}
 }
 
+// rrCtx is a context that is not one of the standard library's: contexts derived from it are cancelled by a
+// watcher goroutine, i.e. a little later than the context itself (what a caller-supplied context does)
+type rrCtx struct {
+	mu   sync.Mutex
+	done chan struct{}
+	err  error
+}
+
+func (c *rrCtx) Deadline() (time.Time, bool) { return time.Time{}, false }
+func (c *rrCtx) Done() <-chan struct{}       { return c.done }
+func (c *rrCtx) Err() error                  { c.mu.Lock(); defer c.mu.Unlock(); return c.err }
+func (c *rrCtx) Value(any) any               { return nil }
+func (c *rrCtx) cancel(cause error) {
+	c.mu.Lock()
+	if c.err == nil {
+		c.err = cause
+		close(c.done)
+	}
+	c.mu.Unlock()
+}
+
 func (r *rrRun) start(e int) {
-	ctx, cancel := context.WithCancelCause(context.Background())
+	var ctx context.Context
+	var cancel context.CancelCauseFunc
+	if r.foreignCtx {
+		fc := &rrCtx{done: make(chan struct{})}
+		ctx, cancel = fc, fc.cancel
+	} else {
+		ctx, cancel = context.WithCancelCause(context.Background())
+	}
 	r.mu.Lock()
 	r.ctxEx[ctx] = e
 	r.cancels[e-1] = cancel
@@ -607,6 +645,45 @@ func (r *rrRun) do(a rrAct, want rrState) {
 func (r *rrRun) cleanup() bool {
 	r.mu.Lock()
 	r.free = true
+	// racy tail: a dial whose result is about to be handed to a caller that is still waiting. The hand-over is
+	// let go and the caller's context is cancelled a few microseconds later - the caller may take the
+	// connection or leave on its context; either way the connection must not be lost (checked below)
+	type pend struct{ k, e int }
+	var pends []pend
+	for e := 1; e <= r.nex; e++ {
+		if k := r.dialOf[e-1]; k > 0 && r.dialst[k-1] == "deliver" && r.pc[e-1] == "dialwait" && !r.ctxdone[e-1] && r.cancels[e-1] != nil {
+			pends = append(pends, pend{k, e})
+		}
+	}
+	// ... and a dial that is still in progress while callers wait: their contexts are cancelled at the very
+	// moment the dial returns its connection
+	var waiting []context.CancelCauseFunc
+	for e := 1; e <= r.nex; e++ {
+		if r.pc[e-1] == "dialwait" && !r.ctxdone[e-1] && r.cancels[e-1] != nil && r.dialOf[e-1] == 0 {
+			waiting = append(waiting, r.cancels[e-1])
+		}
+	}
+	for k := 1; k <= r.ncon && len(waiting) > 0; k++ {
+		if r.dialst[k-1] == "dialing" {
+			r.cancelAtDial[k-1] = func() {
+				for _, c := range waiting {
+					c(context.Canceled)
+				}
+			}
+			r.dialCh[k-1] <- true
+			dbgPends++
+		}
+	}
+	r.mu.Unlock()
+	dbgPends += len(pends)
+	for _, p := range pends {
+		r.grant(fmt.Sprint("deliver:", p.k))
+		d := time.Duration([]int{0, 1, 2, 3, 4, 6, 9, 14, 25}[tailRng.Intn(9)]) * time.Microsecond
+		for t0 := time.Now(); time.Since(t0) < d; {
+		}
+		r.cancels[p.e-1](context.Canceled)
+	}
+	r.mu.Lock()
 	for _, ch := range r.permits {
 		for i := 0; i < 32; i++ {
 			select {
@@ -640,7 +717,6 @@ func (r *rrRun) cleanup() bool {
 			}
 		}
 	}
-	r.t.Close()
 	done := make(chan struct{})
 	go func() { r.wg.Wait(); close(done) }()
 	ok := true
@@ -649,6 +725,31 @@ func (r *rrRun) cleanup() bool {
 	case <-time.After(3 * time.Second):
 		ok = false
 	}
+	// ReuseStep!Inv_C06_NoStray on the real state: every caller has returned (their contexts are cancelled, all
+	// gates are open, pending i/o fails); once the transport's own goroutines have run down, a connection that
+	// is still open is in the idle set - whichever way the races of this tail went
+	if ok {
+		var stray []int
+		for until := time.Now().Add(1500 * time.Millisecond); ; {
+			stray = stray[:0]
+			s := r.project()
+			for i, st := range s.Sock {
+				// open and forgotten, or in the idle set without being one of the transport's connections
+				if (st == "open" && !s.Inidle[i]) || (s.Inidle[i] && !s.Inconns[i] && !s.Tclosed) {
+					stray = append(stray, i+1)
+				}
+			}
+			if len(stray) == 0 || time.Now().After(until) {
+				break
+			}
+			time.Sleep(200 * time.Microsecond)
+		}
+		if len(stray) > 0 {
+			s := r.project()
+			tr.Emit("rp.stray", "conns", stray, "closed", s.Tclosed, "inconns", s.Inconns, "serving", s.Serving, "dialst", s.Dialst, "wkst", s.Wkst)
+		}
+	}
+	r.t.Close()
 	// give the exchange goroutines (released above) a moment to run down, then look at the held replies
 	time.Sleep(300 * time.Microsecond)
 	r.mu.Lock()
@@ -692,6 +793,7 @@ func modeRReplay(file string, stepTimeout time.Duration) {
 			break
 		}
 		r := newRRRun(nex, ncon)
+		r.foreignCtx = pi%2 == 1
 		rrMu.Lock()
 		rrCur = r
 		rrMu.Unlock()
@@ -730,5 +832,5 @@ func modeRReplay(file string, stepTimeout time.Duration) {
 	rrMu.Lock()
 	rrCur = nil
 	rrMu.Unlock()
-	tr.Emit("rp.done", "paths", len(f.Paths), "steps", steps, "diverged", diverged)
+	tr.Emit("rp.done", "paths", len(f.Paths), "steps", steps, "diverged", diverged, "racytails", dbgPends)
 }
